@@ -254,3 +254,137 @@ Proof.
         -- unfold s4. rewrite rebuild_toks, T3b. intro Hin. apply Hn. eapply in_skipn; eassumption.
       * rewrite rebuild_len. unfold s4. rewrite rebuild_len. reflexivity.
 Qed.
+
+(* ---------- branch 1: split ---------- *)
+Lemma split_spec LF s b s' r : 1 <= LF -> InvG (eq b) s -> In b (s_blocks s) -> toks s b <> [] ->
+  split_block LF s b = (s', r) ->
+  r = Ok tt /\ Inv0 s' /\ abs s' = abs s /\ frame_ok s s'.
+Proof.
+  intros HLF I Hb Hne H. apply In_nth_error in Hb as [i Hi]. pose proof (blocks_split_at s i b Hi) as E.
+  set (pre := firstn i (s_blocks s)) in *. set (post := skipn (S i) (s_blocks s)) in *.
+  destruct (seg_facts _ s pre [b] post I E) as (ND & Dis & Ea & NDa & Hpp & Hold).
+  assert (In b (s_blocks s)) as Hb by (apply Hold, in_eq).
+  pose proof (inv_block_nodup _ s b I Hb) as NDb.
+  assert (length pre = i) as Lpre by (apply (nth_error_split_at _ _ _ Hi)).
+  unfold split_block in H. fold (toks s b) (bidx s b) in H.
+  destruct (build_blocks LF (length (toks s b)) s (bidx s b) (toks s b)) as [s1 r1] eqn:EB.
+  destruct (build_blocks_spec LF HLF _ _ _ _ _ _ (le_n _) NDb EB) as (nbs & -> & HBB).
+  destruct HBB as (B1 & B2 & B3 & B4 & B5 & B6 & B7 & B8 & B9 & B10 & B11 & B12).
+  assert (forall b0, In b0 (s_blocks s) -> bget (s_heap s1) b0 = bget (s_heap s) b0) as Hfr.
+  { intros b0 H0. apply B6. apply (g_lt _ _ I); assumption. }
+  change (b_index (bget (s_heap s1) b)) with (bidx s1 b) in H.
+  assert (bidx s1 b = Z.of_nat i) as Eidx by (unfold bidx; rewrite Hfr by assumption; apply (g_idx _ _ I); assumption).
+  rewrite Eidx, B1 in H. replace (Z.of_nat i + 1) with (Z.of_nat (S i)) in H by lia.
+  rewrite list_setslice_nat in H by (apply nth_error_in_len in Hi; lia). fold pre post in H.
+  specialize (B10 Hne).
+  destruct (rev nbs) as [|lastb rl] eqn:Er; [exfalso; apply B10; rewrite <- (rev_involutive nbs), Er; reflexivity|].
+  apply rev_cons_inv in Er.
+  set (s2 := with_blocks s1 (pre ++ nbs ++ post)) in *.
+  change (b_index (bget (s_heap s2) lastb)) with (bidx s1 lastb) in H.
+  assert (nth_error nbs (length (rev rl)) = Some lastb) as Hl by (rewrite Er; apply nth_error_app_mid).
+  rewrite (B8 _ _ Hl), (g_idx _ _ I i b Hi) in H.
+  assert (length nbs = S (length (rev rl))) as Ln by (rewrite Er, app_length; cbn; lia).
+  replace (Z.of_nat i + Z.of_nat (length (rev rl)) + 1) with (Z.of_nat (i + length nbs)) in H by lia.
+  assert (s' = update_block_indexes s2 (Z.of_nat (i + length nbs)) /\ r = Ok tt) as [-> ->]
+    by (injection H as E1 E2; split; symmetry; [exact E1|exact E2]).
+  clear H. split; [reflexivity|].
+  assert (forall x, In x nbs -> ~ In x pre /\ ~ In x post) as Hfresh.
+  { intros x Hx. apply B4 in Hx. split; intro Hc;
+      assert (In x (s_blocks s)) as Hin by (apply Hpp; apply in_or_app; auto); apply (g_lt _ _ I) in Hin; lia. }
+  assert (NoDup (pre ++ nbs ++ post)) as ND' by (apply (nodup_mid_replace pre [b] nbs post ND B5 Hfresh)).
+  assert (forall t, ~ In t (toks s b) -> hnd s1 t = hnd s t) as Hh1 by (intros t Ht; unfold hnd; rewrite B12 by assumption; reflexivity).
+  destruct (seg_replace (eq b) (fun _ => False) s (update_block_indexes s2 (Z.of_nat (i + length nbs)))
+              pre [b] nbs post (flat_map (toks s) [b]) I E) as [I' Ea'].
+  - discriminate.
+  - intros b0 H0 <-. apply (Dis b H0), in_eq.
+  - rewrite ubi_blocks. reflexivity.
+  - exact B10.
+  - exact ND'.
+  - rewrite ubi_next. change (s_next s2) with (s_next s1). intros b0 H0.
+    apply in_app_or in H0 as [H0|H0]; [|apply in_app_or in H0 as [H0|H0]].
+    + assert (In b0 (s_blocks s)) as Hin by (apply Hpp; apply in_or_app; auto). apply (g_lt _ _ I) in Hin. lia.
+    + apply B4 in H0. lia.
+    + assert (In b0 (s_blocks s)) as Hin by (apply Hpp; apply in_or_app; auto). apply (g_lt _ _ I) in Hin. lia.
+  - apply (ubi_idx s2 (i + length nbs) ND'). intros k b0 Hk Hn. change (s_blocks s2) with (pre ++ nbs ++ post) in Hn.
+    change (bidx s2 b0) with (bidx s1 b0).
+    destruct (Nat.lt_ge_cases k i) as [L|L].
+    + rewrite nth_error_app1 in Hn by lia. unfold bidx.
+      rewrite Hfr by (apply Hpp; apply in_or_app; left; eapply nth_error_In; eassumption).
+      apply (g_idx _ _ I). rewrite E, nth_error_app1 by lia. exact Hn.
+    + rewrite nth_error_app2, nth_error_app1 in Hn by lia. rewrite (B8 _ _ Hn), (g_idx _ _ I i b Hi). lia.
+  - intros b0 H0. unfold bsz, blnl. rewrite ubi_toks. unfold toks.
+    fold (bsz (update_block_indexes s2 (Z.of_nat (i + length nbs))) b0) (blnl (update_block_indexes s2 (Z.of_nat (i + length nbs))) b0).
+    rewrite ubi_bsz, ubi_blnl. unfold bsz, blnl. change (s_heap s2) with (s_heap s1). rewrite Hfr by (apply Hpp; assumption). auto.
+  - cbn [flat_map]. rewrite app_nil_r, <- B7. apply flat_map_ext. intro b0. rewrite ubi_toks. reflexivity.
+  - exact NDa.
+  - intro t. rewrite ubi_toksmap. unfold txt at 1. rewrite ubi_toksmap. apply B11.
+  - intros t Hn _. rewrite ubi_hnd. apply Hh1. cbn [flat_map] in Hn. rewrite app_nil_r in Hn. exact Hn.
+  - intros t Hn Ho. contradiction.
+  - intros b0 H0 _. destruct (B9 b0 H0) as [Hne0 Hok0]. split.
+    + apply (blk_ok_frame s1 _ b0 Hok0).
+      * rewrite ubi_toks. reflexivity.
+      * rewrite ubi_bsz. reflexivity.
+      * rewrite ubi_blnl. reflexivity.
+      * intros t _. rewrite ubi_hnd, ubi_toksmap. auto.
+    + rewrite ubi_toks. intro Ee. contradiction.
+  - split; [exact I'|]. split; [rewrite Ea', Ea; reflexivity|]. split; [|split].
+    + intro t. rewrite ubi_toksmap. unfold txt at 1. rewrite ubi_toksmap. apply B11.
+    + intros t Ht. rewrite ubi_hnd. apply Hh1. intro Hin. apply Ht. apply in_abs. exists b. auto.
+    + rewrite ubi_len. exact B2.
+Qed.
+
+(* ---------- _update_block ---------- *)
+Lemma update_block_spec LF s b s' r : 1 <= LF -> InvG (eq b) s -> In b (s_blocks s) ->
+  update_block LF s b = (s', r) ->
+  r = Ok tt /\ Inv0 s' /\ abs s' = abs s /\ frame_ok s s'.
+Proof.
+  intros HLF I Hb H. pose proof Hb as Hb'. apply In_nth_error in Hb' as [i Hi].
+  pose proof (g_idx _ _ I i b Hi) as Ei. pose proof (nth_error_in_len _ _ _ Hi) as Li.
+  unfold update_block in H. fold (toks s b) (bidx s b) in H. rewrite Ei in H.
+  assert (0 <= HALF LF) as Hh by (unfold HALF; apply Z.div_pos; lia).
+  destruct (Z.geb_spec (zlen (toks s b)) (DOUBLE LF)) as [G|G].
+  - apply (split_spec LF s b s' r HLF I Hb); [|exact H].
+    intro Ee. rewrite Ee in G. unfold DOUBLE in G. cbn in G. lia.
+  - destruct (Z.leb_spec (zlen (toks s b)) (HALF LF)) as [Lh|Lh];
+      [destruct (Z.gtb_spec (zlen (s_blocks s)) 1) as [G1|G1]|]; cbn [andb] in H.
+    + (* merge *)
+      unfold zlen in G1.
+      assert (forall j p, j <> i -> nth_error (s_blocks s) j = Some p -> toks s p <> []) as Hother.
+      { intros j p Nj Hp Ee. assert (p <> b) as Np.
+        { intros ->. pose proof (g_nd _ _ I) as ND. rewrite NoDup_nth_error in ND.
+          apply Nj. apply ND; [eapply nth_error_in_len; eassumption|congruence]. }
+        destruct (g_ok _ _ I p) as [_ Hn]; [eapply nth_error_In; eassumption|congruence|].
+        rewrite (Hn Ee) in G1. cbn in G1. lia. }
+      destruct i as [|i].
+      * cbn [Z.of_nat Z.eqb negb] in H. unfold blocks_at in H. change (0 + 1) with (Z.of_nat 1) in H.
+        rewrite py_nth_nat in H by lia.
+        destruct (nth_error (s_blocks s) 1) as [n|] eqn:Hn; [|apply nth_error_None in Hn; lia].
+        apply (merge_spec LF (eq b) s b n 0 s' r HLF I Hi Hn); [intros x <-; auto| |exact H].
+        intro Ee. apply app_eq_nil in Ee as [_ Ee]. exact (Hother 1%nat n ltac:(lia) Hn Ee).
+      * destruct (Z.eqb_spec (Z.of_nat (S i)) 0); [lia|]. cbn [negb] in H. unfold blocks_at in H.
+        replace (Z.of_nat (S i) - 1) with (Z.of_nat i) in H by lia. rewrite py_nth_nat in H by lia.
+        destruct (nth_error (s_blocks s) i) as [p|] eqn:Hp; [|apply nth_error_None in Hp; lia].
+        apply (merge_spec LF (eq b) s p b i s' r HLF I Hp Hi); [intros x <-; auto| |exact H].
+        intro Ee. apply app_eq_nil in Ee as [Ee _]. exact (Hother i p ltac:(lia) Hp Ee).
+    + (* rebuild, single block *)
+      destruct (ub_rebuild s b I Hb) as (I' & Ea & Hf).
+      { intros _. unfold zlen in G1. assert (length (s_blocks s) <= 1)%nat as G2 by lia.
+        pose proof (blocks_split_at s i b Hi) as E. rewrite E in G2 |- *. rewrite !app_length in G2. cbn [length] in G2.
+        destruct (firstn i (s_blocks s)), (skipn (S i) (s_blocks s)); cbn [length] in G2; try lia. reflexivity. }
+      rewrite rebuild_blocks in H. change (b_index (bget (s_heap (rebuild s b)) b)) with (bidx (rebuild s b) b) in H.
+      rewrite rebuild_bidx, Ei in H.
+      destruct (Z.ltb_spec (Z.of_nat i + 1) (zlen (s_blocks s))) as [L1|L1]; unfold zlen in *; [lia|].
+      injection H as <- <-. auto.
+    + (* rebuild *)
+      destruct (ub_rebuild s b I Hb) as (I' & Ea & Hf).
+      { intros Ee. rewrite Ee in Lh. cbn in Lh. lia. }
+      rewrite rebuild_blocks in H. change (b_index (bget (s_heap (rebuild s b)) b)) with (bidx (rebuild s b) b) in H.
+      rewrite rebuild_bidx, Ei in H.
+      destruct (Z.ltb_spec (Z.of_nat i + 1) (zlen (s_blocks s))) as [L1|L1]; unfold zlen in *.
+      * unfold blocks_at in H. rewrite rebuild_blocks in H. replace (Z.of_nat i + 1) with (Z.of_nat (S i)) in H by lia.
+        rewrite py_nth_nat in H by lia.
+        destruct (nth_error (s_blocks s) (S i)) as [n|] eqn:Hn; [|apply nth_error_None in Hn; lia].
+        change (b_index (bget (s_heap (rebuild s b)) n)) with (bidx (rebuild s b) n) in H.
+        rewrite rebuild_bidx, (g_idx _ _ I _ _ Hn), Z.eqb_refl in H. cbn [negb] in H. injection H as <- <-. auto.
+      * injection H as <- <-. auto.
+Qed.
